@@ -168,6 +168,36 @@ pub fn mutate(
   out
 }
 
+/// strings for the base64 `output` field of a JSON evaluation: every decoded
+/// length around 32, padded / unpadded / over-padded, illegal characters,
+/// url-safe alphabet, single-character edits of a valid value
+pub fn b64_output_strings(rng: &mut ChaCha20Rng) -> Vec<(String, String)> {
+  use base64::{engine::Engine as _, prelude::BASE64_STANDARD};
+  let mut v: Vec<(String, String)> = Vec::new();
+  for n in 0..=40usize {
+    let raw = rand_bytes(rng, n);
+    let s = BASE64_STANDARD.encode(&raw);
+    v.push((format!("b64:{}bytes", n), s.clone()));
+    let unp = s.trim_end_matches('=').to_string();
+    if unp != s {
+      v.push((format!("b64:{}bytes-unpadded", n), unp.clone()));
+      v.push((format!("b64:{}bytes-padA", n), format!("{}{}", unp, "A".repeat(s.len() - unp.len()))));
+    }
+  }
+  let good = BASE64_STANDARD.encode(rand_bytes(rng, 32));
+  for (i, ch) in [(43usize, 'A'), (43, '!'), (42, '='), (0, '='), (10, ' '), (20, '\n'), (43, '/'), (5, '-'), (6, '_')] {
+    let mut c: Vec<char> = good.chars().collect();
+    c[i] = ch;
+    v.push((format!("b64:edit{}={:?}", i, ch), c.into_iter().collect()));
+  }
+  v.push(("b64:doubled".into(), format!("{}{}", good, good)));
+  v.push(("b64:extra-pad".into(), format!("{}=", good)));
+  v.push(("b64:42+==".into(), format!("{}==", &good[..42])));
+  v.push(("b64:44-no-pad".into(), format!("{}A", &good[..43])));
+  v.push(("b64:urlsafe".into(), good.replace('+', "-").replace('/', "_")));
+  v
+}
+
 pub fn uniform_strings(rng: &mut ChaCha20Rng, count: usize) -> Vec<(String, Vec<u8>)> {
   let fixed = [0usize, 1, 2, 3, 4, 5, 7, 8, 23, 24, 25, 47, 48, 49, 72, 100, 163, 164, 165, 200];
   let mut out = Vec::new();
@@ -457,6 +487,12 @@ pub fn group(ctx: &Ctx, g: u64) -> Vec<Case> {
           }
         }
         push_all(&mut out, Target::ProofLoad, uniform_strings(rng, 30));
+        for (d, s) in b64_output_strings(rng) {
+          for proof in ["null", "{\"c\":[0,0,0,0,0,0,0,0,0,0,0,0,0,0,0,0,0,0,0,0,0,0,0,0,0,0,0,0,0,0,0,0],\"s\":[1,0,0,0,0,0,0,0,0,0,0,0,0,0,0,0,0,0,0,0,0,0,0,0,0,0,0,0,0,0,0,0]}"] {
+            let js = format!("{{\"output\":{},\"proof\":{}}}", serde_json::to_string(&s).unwrap_or_default(), proof);
+            out.push(Case::one(Target::JsonEvaluation, format!("json-output:{}", d), js.into_bytes()));
+          }
+        }
         for s in ["", "null", "{}", "[]", "{\"output\":\"\",\"proof\":null}", "{\"output\":\"!!!!\",\"proof\":null}",
                   "{\"output\":\"AAAA\",\"proof\":null}", "{\"output\":5}", "{\"proof\":null}", "\"\\u0041\"",
                   "{\"output\":\"AAAAAAAAAAAAAAAAAAAAAAAAAAAAAAAAAAAAAAAAAAA=\",\"proof\":{\"c\":[1],\"s\":[2]}}"] {
